@@ -320,7 +320,7 @@ template <typename E> struct small_kind {
         }
     }
     static void push(C& c, const T& v) { c.push_back(v); }
-    static void pushAt(C&, size_t) {}
+    static void pushAt(C& c, size_t i) { c.push_back(c[i]); }
     static void resize(C& c, size_t n) { c.resize(n); }
     static size_t size(const C& c) { return (size_t)c.size(); }
     static size_t cap(const C& c) { return c.st() ? SMALL_DIM : reinterpret_cast<const vec_peek<E>*>(c.dy())->cap(); }
